@@ -39,7 +39,13 @@ def rhs_matrix(ode, max_tries: int | None = None) -> sympy.Matrix:
     RuntimeError
         If the maximum number of tries is reached
     """
-    intermediates = {x.symbol: x.expr for x in ode.intermediates}
+    def number(expr):
+        # An intermediate that is a relation (g = Lt(x, 1)) is the number 1 or 0 where it is read
+        if isinstance(expr, (sympy.core.relational.Relational, sympy.logic.boolalg.BooleanFunction)):
+            return sympy.Piecewise((1, expr), (0, True))
+        return expr
+
+    intermediates = {x.symbol: number(x.expr) for x in ode.intermediates}
     # An intermediate may read the derivative of a state (rate = 2 * dx_dt), so the
     # state derivatives are definitions to expand as well
     intermediates.update({x.symbol: x.expr for x in ode.state_derivatives})
